@@ -136,6 +136,45 @@ func newCase(p *Prop, tier string, seed int64, idx int) *Case {
 	}
 }
 
+// RunSub runs case index of another property's workload inside this case and
+// folds what it observed into this one: signatures and counters under the
+// prefix "<sub.ID>/", inconclusive remarks, and those violations whose key
+// keep() accepts (the part of the other workload's oracle that decides this
+// property too).  It is how a property whose statement covers mechanisms
+// that another check drives in depth gets them decided by its own command.
+func (c *Case) RunSub(sub *Prop, index int, keep func(key string) bool) {
+	sc := newCase(sub, c.Tier, c.Seed, index)
+	sc.Guard("case", func() { sub.Run(sc) })
+	sc.mu.Lock()
+	defer sc.mu.Unlock()
+	c.mu.Lock()
+	defer c.mu.Unlock()
+	for s := range sc.sigs {
+		c.sigs[sub.ID+"/"+s] = struct{}{}
+	}
+	for k, n := range sc.counts {
+		c.counts[sub.ID+"/"+k] += n
+	}
+	for _, v := range sc.viol {
+		if keep(v.Key) {
+			v.Index = c.Index
+			v.Detail = fmt.Sprintf("[%s workload, its case %d] %s", sub.ID, index, v.Detail)
+			c.viol = append(c.viol, v)
+		} else {
+			c.counts[sub.ID+"/violations_left_to_"+sub.ID]++
+		}
+	}
+	for _, s := range sc.incon {
+		c.incon = append(c.incon, fmt.Sprintf("case %d: [%s case %d] %s", c.Index, sub.ID, index, s))
+	}
+	if c.sample == nil {
+		c.sample = map[string]any{"workload": sub.ID, "case": index, "sample": sc.sample}
+	}
+	if c.extra == nil {
+		c.extra = sc.extra
+	}
+}
+
 // Sig records a signature of a case that exercised the property's mechanism.
 // The number of distinct signatures over the run is distinct_nontrivial.
 func (c *Case) Sig(format string, a ...any) {
